@@ -41,6 +41,40 @@ CHECKS = [
     C("C19", "exploration", CLI + ": view rows decoded back; styled vs unstyled; checker classification in-process",
       "Every row of the three views compared with independent decoding of the bytes at its offset (RDH attributes, TDH/TDT/DDW flags), styled vs unstyled equality, and on conforming streams the shown word kind vs the kind assigned by the real cutter+FSM.",
       "Words with known identifiers; sampled streams."),
+    C("C04", "exploration", CLI + " + AddressSanitizer, valgrind memcheck and Miri (thorough)",
+      "Random bytes, structure-aware and byte-level mutants of generated streams and of the 18 shipped files, plus directed inputs for every panic site known to be reachable from input, through 9 modes x options x {file, pipe}: any terminating signal, panic text, exit status outside {0,1,N}, sanitizer report or logical no-progress state is a violation. Thorough: 150k executions of the exact shipped profile, 30k under ASan, 400 under memcheck, the unsafe sites under Miri.",
+      "Sampled inputs; hang decided by /proc (threads asleep, no CPU progress), wall clock only triggers the inspection."),
+    C("C05", "exploration", CLI + " under seeded schedule perturbation (hook H1), arrival orders measured with hook H2",
+      "Multi-link inputs with several errors at the same offset and > 20 errors, each run K times (12 quick / 60 thorough) under distinct perturbation schedules incl. stalled validators / stalled collector; stderr error order, stdout, statistics bytes and exit status must equal the unperturbed run. A case only counts if >= 3 distinct pre-sort arrival orders were observed.",
+      "Perturbation only at the existing hand-off points; explores many, not all, interleavings."),
+    C("C06", "exploration", CLI + " + in-process single-threaded pass: per-link normalised error lists compared across layouts",
+      "Multi-link streams with 0..10 mutations: per-link error lists, normalised to (packet index in link, delta), compared between the stream as generated, two re-merges, the extracted single-link file, --filter-link/-fee/-its-stave runs and one sequential pass through a real LinkValidator.",
+      "Link / FEE identifiers are not mutated; extracted files only compared when recognised by the start-up gate."),
+    C("C10", "exploration", "in-process bit-flip sweep of the real RDH validators + " + CLI + " on RDH-only files, against a reference model of the documented rules",
+      "In-process: every single-bit deviation of all 512 header bits at 5 positions of conforming sequences x both validator configurations, boundary values, random walks; CLI: RDH-only files with injected faults in 4 modes: the sets of offsets with [E10] / [E11] must equal the reference model's.",
+      "Reference model is my transcription of the documented rules (bc <= 0xdeb, detector-field bits 23:12)."),
+    C("C12", "exploration", "in-process grid over the real payload cutter + " + CLI + " (view rows, marker faults, over-padding, state reset)",
+      "preprocess_payload vs reference cutter over formats x word counts x 0xFF runs 0..40 (all residues mod 10 and 16); data view rows (count, offsets, bytes); marker faults reported at base + i*slot; exactly one Payload error per over-padded payload, its words not examined, next packet judged from the initial state.",
+      "Layout agrees with the header's data format; the disagreeing case is known finding D8 (sniff-vs-header-format)."),
+    C("C13", "exploration", CLI + " on frames from an independent ALPIDE encoder, reference verdict + metamorphic hit-content pairs",
+      "Frames for all barrels with legal / illegal lane sets, chip lists (ids, bunch counters, flags, empty frames, no chip, FATAL announcement), split over words and pages: frame-level codes at the frame start, lanes listed, inner codes and alpide_stats must equal the reference verdict; each stream encoded twice with different (also header-like) hit bytes must give identical verdicts and counters.",
+      "Reference verdict is my transcription of doc/checks_list.md; known finding D9 (announcing frame rejected)."),
+    C("C15", "fault_enumeration", CLI + ": round trip, then leaf-by-leaf perturbation of the written statistics file",
+      "Statistics file (JSON/TOML, +-m) written by a run must be accepted by an identical run; every leaf that the run collects, perturbed one at a time (all leaves in thorough, 40 sampled per file in quick), must be reported as a mismatch with the any-errors exit status; a changed input with the old file must be reported iff its own statistics differ.",
+      "Perturbed files stay well-typed."),
+    C("C16", "exploration", CLI + ": exit status / accounting contract table",
+      "Contract table (clean, k errors, mid-stream fatal, custom-check failure, statistics mismatch, missing / empty / short / non-ALICE input, 10 invalid option combinations) x N values; totals in report = statistics = displayed; -m, -w (leading code, prefixes of other codes), -e.",
+      "Sampled configurations."),
+    C("C17", "fault_enumeration", "process monitor (/proc) + schedule perturbation (H1): stop conditions at logical instants",
+      "SIGINT/SIGTERM after chunk k of the input or n bytes of output, stdout closed after n bytes (views, filtered data, -S stdout), error cap, fatal framing error at packet i with stalled threads / full queues: the process must exit (no-progress criterion), not by signal, without panic, status in {0,1,N}; a partial -o file must be a whole-packet prefix of the expected output.",
+      "Single stop signal; upstream keeps delivering or closes; thorough tier on the exact shipped profile."),
+    C("C18", "fault_enumeration", CLI + ": metamorphic prefix vs full run over enumerated cut positions",
+      "Cut at every structural boundary +-1 (quick) / every byte of small streams (thorough) x 5 modes x {file, pipe} x optional filter: normal termination, and findings (messages / view rows) located in complete packets identical to the untruncated run's.",
+      "Frame messages whose frame ends in the incomplete packet are excluded."),
+    C("C20", "exploration", CLI + ": custom checks vs generator ground truth",
+      "cdps / triggers_pht at truth-1, truth, truth+1; rdh_version vs per-packet versions; OB chip count / order per lane per frame; all-commented file vs no file; key subsets; trigger period incl. wrap-around and deviations: [E9001] [E9002] [E10 Header ID] [E9004] [E9005] [E45] appear exactly where the ground truth says.",
+      "Sampled streams and configurations."),
 ]
 done = {c["id"] for c in CHECKS}
 NOT_APPLICABLE = [{"property_id": p, "reason": "monitor not registered yet (work in progress, see DESIGN.md §3)"} for p in ALL if p not in done]
+CHECKS.sort(key=lambda c: c["id"])
